@@ -180,3 +180,14 @@ package req
 //@   before call:SetPrivate#1 assert p.p == pp && p.s == s
 //@
 // ---- end generated AddPipe contracts ----
+
+// ---- round 5 ----
+//@ func (*socket).send
+//@   before go:sendCtx#1 assert c.resendTime > 0 ==> called_since("loop1:head", "AfterFunc") && c.resendTimer != nil
+//@   at call:AfterFunc#1 assert id == c.reqID
+//@
+//@ func (*context).cancel
+//@   ensures c.resendTimer == nil && c.sendTimer == nil && c.receiveTimer == nil
+//@
+//@ func (*context).RecvMsg$1
+//@   before call:Unlock#1 assert at("call:Lock#1", c.reqID) == id && id != 0 ==> c.reqID == 0 && !has(c.s.ctxByID, id)
